@@ -1,6 +1,6 @@
 SPECIFICATION Spec
 CONSTANTS N = 3
-          MaxTime = 10
+          MaxTime = 17
           Silent = 0
           FaultKind = "lossy"
           DialKind = "reconnect"
@@ -10,4 +10,5 @@ CONSTANTS N = 3
 INVARIANT NodeInvariants
 INVARIANT ClaimsAreLastAnnouncement
 INVARIANT OwnNeverDialled
+INVARIANT RecoversBy
 CHECK_DEADLOCK FALSE
